@@ -563,6 +563,17 @@ fn iterative_auth_check<E: Event + Clone>(
 /// power_level event. If there have been two power events the after the most recent are depth 0,
 /// the events before (with the first power level as a parent) will be marked as depth 1. depth 1 is
 /// "older" than depth 0.
+/// Verification hook: the mainline ordering used by `resolve` for the events that are not power events.
+#[cfg(ruma_verif)]
+#[doc(hidden)]
+pub fn verif_mainline_sort<E: Event>(
+    to_sort: &[E::Id],
+    resolved_power_level: Option<E::Id>,
+    fetch_event: impl Fn(&EventId) -> Option<E>,
+) -> Result<Vec<E::Id>> {
+    mainline_sort(to_sort, resolved_power_level, fetch_event)
+}
+
 fn mainline_sort<E: Event>(
     to_sort: &[E::Id],
     resolved_power_level: Option<E::Id>,
